@@ -142,6 +142,13 @@ pub fn universe(ctx: &mut Ctx, extra: usize) -> Vec<OwnedTerm> {
     u.push(OwnedTerm::Reference(ExternalReference::new(n1.clone(), 1, vec![1, 2])));
     u.push(OwnedTerm::Reference(ExternalReference::new(n1.clone(), 2, vec![1, 2, 3])));
     u.push(OwnedTerm::Reference(ExternalReference::new(n2.clone(), 1, vec![0])));
+    // id vectors that differ only by trailing / leading zero words, and by length alone (seeded change S68: the shorter
+    // vector compared as if padded with zero words)
+    u.push(OwnedTerm::Reference(ExternalReference::new(n1.clone(), 1, vec![1, 2, 3, 0])));
+    u.push(OwnedTerm::Reference(ExternalReference::new(n1.clone(), 1, vec![0, 1, 2, 3])));
+    u.push(OwnedTerm::Reference(ExternalReference::new(n1.clone(), 1, vec![1, 2, 0])));
+    u.push(OwnedTerm::Reference(ExternalReference::new(n2.clone(), 1, vec![0, 0])));
+    u.push(OwnedTerm::Reference(ExternalReference::new(n2.clone(), 1, vec![])));
     u.push(OwnedTerm::Reference(ExternalReference::with_local_ext_bytes(n1.clone(), 1, vec![1, 2, 3], vec![1u8; 20])));
     u.push(OwnedTerm::ExternalFun(ExternalFun::new(Atom::new("m"), Atom::new("f"), 1)));
     u.push(OwnedTerm::ExternalFun(ExternalFun::new(Atom::new("m"), Atom::new("f"), 2)));
